@@ -43,6 +43,10 @@ def run(ctx):
                         desc=nm + '; symbolic values, query bytes (all 256) and query length <= 3; getLongest/get/has/size vs linear scan, both representations'))
     qs.append(Query('destroy', L, os.path.join(H, 'h_longest.c'), cfg_defs(['ab', 'a'], 'ab', None, 0) + ['DESTROY'], unwind=6, timeout=600,
                     desc='as above plus destruction of the trie (no invalid free)'))
+    for q in qs:
+        # libstdc++'s red-black tree forms `header + 0` from a possibly-null node pointer: nullptr + 0 is well defined in C++,
+        # CBMC's pointer-overflow check (a C rule) flags it; no sanitizer confirms it.  The check is off for this property.
+        q.no_ptr_overflow = True; q.backend = 'cadical'
     if ctx.only:
         qs = [q for q in qs if re.search(ctx.only, q.name)]
     vecs = [{'kval': [5, 9], 'qb': [97, 98, 100, 0], 'qlen': 3}, {'kval': [1, 2], 'qb': [97, 0, 0, 0], 'qlen': 1}, {'kval': [7, 8], 'qb': [98, 97, 98, 0], 'qlen': 3}]
@@ -55,3 +59,7 @@ def run(ctx):
                         'libstdc++ red-black tree rebalancing replaced by an unbalanced BST model (lift/rbtree_model.c); only the native replay uses the real tree',
                         'operator new never fails']
     return C.finish(ctx)
+
+
+def relift(ctx):
+    return C.lift(ctx, 'C28', os.path.join(H, 'wrap.cpp'), ROOTS, models=[os.path.join(C.LIFT, 'rbtree_model.c')], retype=RETYPE)
